@@ -375,6 +375,14 @@ impl Chain {
         (r, id)
     }
 
+    /// SettleDealPayments for the given deals (anybody may call it).
+    pub fn settle_deals(&self, from_idx: usize, deal_ids: &[u64]) -> Applied {
+        let params = fil_actor_market::SettleDealPaymentsParams {
+            deal_ids: BitField::try_from_bits(deal_ids.iter().cloned()).unwrap(),
+        };
+        self.w.apply(&self.accounts[from_idx].0, &fil_actors_runtime::STORAGE_MARKET_ACTOR_ADDR, &TokenAmount::zero(), fil_actor_market::Method::SettleDealPaymentsExported as u64, Some(params))
+    }
+
     /// Pre-commit one sector whose data are the given published deals (CommD from the deal pieces).
     pub fn precommit_with_deals(&mut self, mi: usize, deal_ids: &[u64], extra_life: i64) -> (Applied, u64) {
         let epoch = self.epoch();
